@@ -480,7 +480,288 @@ fn kind_name(k: &Kind) -> &'static str {
     }
 }
 
+// ---------------------------------------------------------------------------------------------------------------
+// Class "real-daemon": the same kind of history on a REAL bus (a private dbus-daemon). What is registered is what the
+// daemon itself reports for the connection (org.freedesktop.DBus.Debug.Stats.GetAllMatchRules, asked over an observer
+// connection); it must converge to the connection's own subscription table after every step, contain the harness's
+// stream rules exactly while a handle lives, and be empty when every handle is gone.
+
+#[cfg(not(miri))]
+mod real {
+    use super::canon;
+    use crate::harness::realbus::*;
+    use serde_json::json;
+    use std::collections::BTreeMap;
+    use std::time::Duration;
+    use vcommon::Ctx;
+    use vref::prng::{fnv, Rng};
+    use zbus::blocking::Connection;
+    use zbus::proxy::CacheProperties;
+    use zbus::{AsyncDrop, MessageStream};
+
+    enum Handle {
+        /// `origin`: clones of one stream share its registration
+        Stream { rule: usize, origin: u32, s: MessageStream },
+        Proxy { p: zbus::Proxy<'static> },
+        Signal { s: zbus::proxy::SignalStream<'static> },
+    }
+
+    fn multiset(rules: impl IntoIterator<Item = String>) -> BTreeMap<String, usize> {
+        let mut m = BTreeMap::new();
+        for r in rules {
+            *m.entry(canon(&r)).or_insert(0) += 1;
+        }
+        m
+    }
+
+    pub fn history(ctx: &mut Ctx, index: u64, rng: &mut Rng, daemon: &Daemon, observer: &Connection) -> Result<(), String> {
+        ctx.count("evaluations", 1);
+        ctx.count("class:real-daemon", 1);
+        let a = daemon.connect()?;
+        let b = daemon.connect()?;
+        let ua = a.unique_name().map(|u| u.to_string()).ok_or("no unique name")?;
+        let ub = b.unique_name().map(|u| u.to_string()).ok_or("no unique name")?;
+        let owned = format!("t.svc.H{index}.Owned");
+        let unowned = format!("t.svc.H{index}.Nobody");
+        b.request_name(owned.as_str()).map_err(|e| format!("helper cannot take a name: {e}"))?;
+        let stream_rules: Vec<String> = vec![
+            format!("type='signal',interface='t.If{index}'"),
+            format!("type='signal',interface='t.If{index}',member='Sig'"),
+            format!("type='signal',sender='{ub}',path='/q'"),
+            format!("type='signal',path_namespace='/ns{index}',arg0='x'"),
+        ];
+        let conn = a.inner().clone();
+        let mut handles: Vec<Handle> = Vec::new();
+        let mut log: Vec<String> = Vec::new();
+        let mut shape = String::new();
+        let mut next_origin = 0u32;
+        let rounds = if ctx.thorough() { 5 + rng.usize_below(12) } else { 3 + rng.usize_below(6) };
+        for round in 0..=rounds {
+            let last = round == rounds;
+            // ---- drops
+            let mut k = 0;
+            while k < handles.len() {
+                if last || rng.chance(1, 3) {
+                    let h = handles.remove(k);
+                    let how = rng.below(2);
+                    match h {
+                        Handle::Stream { rule, s, .. } => {
+                            if how == 0 {
+                                drop(s);
+                                log.push(format!("r{round}: drop stream {rule}"));
+                            } else {
+                                zbus::block_on(s.async_drop());
+                                log.push(format!("r{round}: async_drop stream {rule}"));
+                            }
+                            shape.push_str(&format!("d{rule}{how}"));
+                        }
+                        Handle::Proxy { p } => {
+                            drop(p);
+                            log.push(format!("r{round}: drop proxy"));
+                            shape.push('P');
+                        }
+                        Handle::Signal { s } => {
+                            if how == 0 {
+                                drop(s);
+                                log.push(format!("r{round}: drop signal stream"));
+                            } else {
+                                zbus::block_on(s.async_drop());
+                                log.push(format!("r{round}: async_drop signal stream"));
+                            }
+                            shape.push_str(&format!("s{how}"));
+                        }
+                    }
+                } else {
+                    k += 1;
+                }
+            }
+            // ---- creations
+            let creations = if last { 0 } else { rng.usize_below(4) };
+            for _ in 0..creations {
+                match rng.below(10) {
+                    0..=3 => {
+                        let rule = rng.usize_below(stream_rules.len());
+                        let text = stream_rules[rule].clone();
+                        let c = conn.clone();
+                        let r = zbus::block_on(async move { MessageStream::for_match_rule(text.as_str(), &c, None).await });
+                        match r {
+                            Ok(s) => {
+                                next_origin += 1;
+                                handles.push(Handle::Stream { rule, origin: next_origin, s });
+                                log.push(format!("r{round}: stream {rule}"));
+                                shape.push_str(&format!("c{rule}"));
+                                ctx.count("real_streams_created", 1);
+                            }
+                            Err(e) => return Err(format!("for_match_rule failed on the real bus: {e}")),
+                        }
+                    }
+                    4 => {
+                        let live: Vec<usize> = handles.iter().enumerate().filter(|(_, h)| matches!(h, Handle::Stream { .. })).map(|(i, _)| i).collect();
+                        if let Some(&i) = live.first() {
+                            if let Handle::Stream { rule, origin, s } = &handles[i] {
+                                let (rule, origin, s2) = (*rule, *origin, s.clone());
+                                handles.push(Handle::Stream { rule, origin, s: s2 });
+                                log.push(format!("r{round}: clone of stream {rule}"));
+                                shape.push_str(&format!("k{rule}"));
+                            }
+                        }
+                    }
+                    _ => {
+                        // a proxy and one or two signal streams on it (two: created concurrently)
+                        let which = rng.below(3);
+                        let dest = match which {
+                            0 => ub.clone(),
+                            1 => owned.clone(),
+                            _ => unowned.clone(),
+                        };
+                        let cache = if rng.bool() { CacheProperties::No } else { CacheProperties::Lazily };
+                        let c = conn.clone();
+                        let two = rng.bool();
+                        let keep_proxy = rng.bool();
+                        let r = zbus::block_on(async move {
+                            let p: zbus::Proxy<'static> = zbus::proxy::Builder::new(&c).destination(dest)?.path("/p")?.interface("t.If")?.cache_properties(cache).build().await?;
+                            let streams = if two {
+                                let (x, y) = futures_util::future::join(p.receive_signal("Sig"), p.receive_signal("Other")).await;
+                                vec![x?, y?]
+                            } else {
+                                vec![p.receive_signal("Sig").await?]
+                            };
+                            Ok::<_, zbus::Error>((p, streams))
+                        });
+                        match r {
+                            Ok((p, streams)) => {
+                                log.push(format!("r{round}: proxy to {} + {} signal stream(s){}", ["unique", "owned", "unowned"][which as usize], streams.len(), if keep_proxy { "" } else { ", proxy dropped at once" }));
+                                shape.push_str(&format!("x{which}{}{}", streams.len(), keep_proxy as u8));
+                                for s in streams {
+                                    handles.push(Handle::Signal { s });
+                                    ctx.count("real_signal_streams_created", 1);
+                                }
+                                if keep_proxy {
+                                    handles.push(Handle::Proxy { p });
+                                }
+                            }
+                            Err(e) => return Err(format!("proxy / receive_signal failed on the real bus: {e}")),
+                        }
+                    }
+                }
+            }
+            // ---- the quiescent point: what the daemon holds must converge to the connection's own table
+            // independently created streams with a live handle (a clone shares its original's registration)
+            let mut origins: std::collections::BTreeSet<(usize, u32)> = Default::default();
+            for h in &handles {
+                if let Handle::Stream { rule, origin, .. } = h {
+                    origins.insert((*rule, *origin));
+                }
+            }
+            let mut want_streams: BTreeMap<String, usize> = BTreeMap::new();
+            for (rule, _) in &origins {
+                *want_streams.entry(canon(&stream_rules[*rule])).or_insert(0) += 1;
+            }
+            // a live proxy keeps its destination's NameOwnerChanged rule, a live signal stream its own rule (and its proxy)
+            let any_signal = handles.iter().any(|h| !matches!(h, Handle::Stream { .. }));
+            let check = |observer: &Connection| -> Result<Option<(String, serde_json::Value)>, String> {
+                let at_bus = multiset(all_match_rules(observer)?.remove(&ua).unwrap_or_default());
+                let c = conn.clone();
+                let table = zbus::block_on(async move { c.verif_subscriptions().await });
+                let own = multiset(table.iter().map(|(r, _, _)| r.clone()));
+                let detail = json!({"at_the_bus": at_bus, "connection_table": table, "live_stream_rules": want_streams});
+                if let Some((r, n)) = at_bus.iter().find(|(_, n)| **n > 1) {
+                    return Ok(Some((format!("registered-{n}-times"), json!({"rule": r, "state": detail}))));
+                }
+                if at_bus != own {
+                    return Ok(Some(("bus-differs-from-subscription-table".into(), detail)));
+                }
+                for (r, n) in &want_streams {
+                    match table.iter().find(|(t, _, _)| canon(t) == *r) {
+                        None => return Ok(Some(("live-stream-rule-not-registered".into(), json!({"rule": r, "state": detail})))),
+                        Some((_, count, _)) if *count as usize != *n => return Ok(Some(("count-differs-from-live-handles".into(), json!({"rule": r, "handles": n, "state": detail})))),
+                        _ => {}
+                    }
+                }
+                for r in stream_rules.iter().map(|r| canon(r)) {
+                    if !want_streams.contains_key(&r) && at_bus.contains_key(&r) {
+                        return Ok(Some(("rule-outlives-its-handles".into(), json!({"rule": r, "state": detail}))));
+                    }
+                }
+                if !any_signal && want_streams.is_empty() && !at_bus.is_empty() {
+                    return Ok(Some(("left-registered-with-no-handles".into(), detail)));
+                }
+                Ok(None)
+            };
+            // removals after a plain drop are sent by a background task: poll (generously) until the state is right;
+            // only a state that stays wrong is reported
+            let mut last_wrong = None;
+            let mut trouble = None;
+            let ok = poll_until(Duration::from_secs(45), || match check(observer) {
+                Ok(None) => Some(()),
+                Ok(Some(w)) => {
+                    last_wrong = Some(w);
+                    None
+                }
+                Err(e) => {
+                    trouble = Some(e);
+                    Some(())
+                }
+            });
+            if let Some(e) = trouble {
+                return Err(e);
+            }
+            ctx.count("real_quiescent_points_checked", 1);
+            if handles.is_empty() {
+                ctx.count("class:real-point-with-no-handles", 1);
+            }
+            if ok.is_none() {
+                let (why, detail) = last_wrong.unwrap_or(("?".into(), json!({})));
+                ctx.finding(index, "registrations-differ-on-a-real-bus", &why, if last { "after-all-dropped" } else { "mid-history" }, json!({"history": log, "state_after_45s": detail}));
+                return Ok(());
+            }
+        }
+        ctx.distinct(fnv(&shape));
+        if index % 16 == 0 {
+            ctx.sample(json!({"real_daemon_history": log}));
+        }
+        Ok(())
+    }
+
+    pub fn run(ctx: &mut Ctx) {
+        let n = ctx.budget(420, 12000);
+        let daemon = match Daemon::start("c37") {
+            Ok(d) => d,
+            Err(e) => {
+                ctx.problem(&format!("C37 real-daemon class: {e}"));
+                return;
+            }
+        };
+        let observer = match daemon.connect() {
+            Ok(c) => c,
+            Err(e) => {
+                ctx.problem(&format!("C37 real-daemon class: {e}"));
+                return;
+            }
+        };
+        for k in 0..n {
+            let i = 3_000_000_000 + k;
+            if !ctx.want(i) {
+                continue;
+            }
+            let mut rng = ctx.rng(i);
+            let mut trouble = None;
+            ctx.guarded(i, "real-daemon", || json!({}), |ctx| {
+                if let Err(e) = history(ctx, i, &mut rng, &daemon, &observer) {
+                    trouble = Some(e);
+                }
+            });
+            if let Some(e) = trouble {
+                ctx.problem(&format!("C37 real-daemon history {i}: {e}"));
+                return;
+            }
+        }
+    }
+}
+
 pub fn run(ctx: &mut Ctx) {
+    #[cfg(not(miri))]
+    real::run(ctx);
     let n = ctx.budget(2500, 100_000);
     for i in 0..n {
         if !ctx.want(i) {
